@@ -141,8 +141,8 @@ def main() -> int:
         names = [n for n in sorted(os.listdir(root)) if os.path.exists(os.path.join(root, n, "patch.diff"))]
         from multiprocessing import Pool
 
-        with Pool(14) as pool:
-            results = pool.starmap(check, [(os.path.join(root, n), props) for n in names])
+        with Pool(14, maxtasksperchild=1) as pool:
+            results = pool.starmap(check, [(os.path.join(root, n), props) for n in names], chunksize=1)
         for name, r in zip(names, results):
             d = os.path.join(root, name)
             meta = json.load(open(os.path.join(d, "meta.json"))) if os.path.exists(os.path.join(d, "meta.json")) else {}
